@@ -128,6 +128,20 @@ func checkProgram(prog []codec.Ins, textSafe, asmSafe bool) (string, string) {
 		i := firstDiff(vp)
 		return "prog:newline->vm-dec:" + opOf(i), fmt.Sprintf("err %v rest %d; instruction %d: encoded %v, vm decoder reads %v", err, len(rest), i, at(prog, i), at(vp, i))
 	}
+	// what was decoded stays what it is when the caller goes on to use its buffer for something else (a read buffer
+	// refilled with the next node's code, a buffer the next program is assembled into)
+	{
+		bb := append([]byte{}, b...)
+		var vp2 []codec.Ins
+		pv, _ := vk.Guard(func() { vp2, _, _ = codec.VMDecode(bb) })
+		for i := range bb {
+			bb[i] = 'Z'
+		}
+		if pv == nil && !codec.Equal(vp2, prog) {
+			i := firstDiff(vp2)
+			return "prog:vm-dec:result-aliases-input-buffer:" + opOf(i), fmt.Sprintf("instruction %d decoded as %v, after the input buffer was overwritten it reads %v", i, at(prog, i), at(vp2, i))
+		}
+	}
 	// ParseAll accepts and consumes
 	var ts string
 	var terr error
